@@ -72,7 +72,7 @@ func C10(run *ev.Run, tier string) map[string]interface{} {
 	var mu sync.Mutex
 	ch := make(chan int, 256)
 	var wg sync.WaitGroup
-	cfg := drv.TableCfg{Hash: "h", HashT: "S", Billing: "PAY_PER_REQUEST"}
+	cfg := drv.TableCfg{Hash: "h", HashT: "S", Billing: "PAY_PER_REQUEST", GSI: []drv.IndexCfg{{Name: "gsi", Hash: "oth", HashT: "S"}}}
 	for w := 0; w < 16; w++ {
 		wg.Add(1)
 		go func() {
@@ -96,6 +96,12 @@ func C10(run *ev.Run, tier string) map[string]interface{} {
 						{"GetItem", drv.Op{K: drv.KGet, Table: "tab", Key: key}},
 						{"Query", drv.Op{K: drv.KQuery, Table: "tab", KeyCond: rx.Eq("h", ":k"), Values: map[string]val.V{":k": val.S("k")}}},
 						{"Scan", drv.Op{K: drv.KScan, Table: "tab"}},
+						// a page that fills (a LastEvaluatedKey is produced next to the item)
+						{"Query(Limit 1)", drv.Op{K: drv.KQuery, Table: "tab", KeyCond: rx.Eq("h", ":k"), Values: map[string]val.V{":k": val.S("k")}, Limit: 1}},
+						{"Scan(Limit 1)", drv.Op{K: drv.KScan, Table: "tab", Limit: 1}},
+						// through a secondary index
+						{"Query(index)", drv.Op{K: drv.KQuery, Table: "tab", Index: "gsi", KeyCond: rx.Eq("oth", ":o"), Values: map[string]val.V{":o": val.S("o")}}},
+						{"Scan(index, Limit 1)", drv.Op{K: drv.KScan, Table: "tab", Index: "gsi", Limit: 1}},
 					}
 					if d.Name == "v2" {
 						reads = append(reads, struct {
@@ -171,7 +177,7 @@ func C10(run *ev.Run, tier string) map[string]interface{} {
 	return map[string]interface{}{
 		"evaluations":         evals,
 		"distinct_nontrivial": len(trees),
-		"rule":                "every attribute-value tree over the boundary leaves (empty and non-empty S and B, numbers in several notations incl. -0 / 1.50 / 1e2, both booleans, NULL, sets with one and two members) of depth 1 and 2 (lists and maps with 0, 1, 2 children; thorough: depth 3 over representatives and a depth-5 spine), stored as a non-key attribute with PutItem and read back through GetItem, Query, Scan, BatchGetItem (SDK v2) and GetItem after an UpdateItem of an unrelated attribute, in both SDK clients; a tree is distinct by its canonical text",
+		"rule":                "every attribute-value tree over the boundary leaves (empty and non-empty S and B, numbers in several notations incl. -0 / 1.50 / 1e2, both booleans, NULL, sets with one and two members) of depth 1 and 2 (lists and maps with 0, 1, 2 children; thorough: depth 3 over representatives and a depth-5 spine), stored as a non-key attribute with PutItem and read back through GetItem, Query, Scan, Query and Scan with Limit 1 (a filled page), Query and Scan through a secondary index, BatchGetItem (SDK v2) and GetItem after an UpdateItem of an unrelated attribute, in both SDK clients; a tree is distinct by its canonical text",
 		"oracle":              "structural equality of names, types and values (sets as sets, numbers by numeric value)",
 		"samples":             samples,
 		"exhaustive":          true,
